@@ -141,29 +141,53 @@ def o111(ctx):
 
 
 def o112(ctx):
-    """extension sets: every extension write accepts is read by the same family"""
+    """extension sets: every extension write accepts is read by the same family (decided by interpreting both functions per extension, so a
+    dispatch through a table or a helper is the same as an if-chain)"""
     mw, fw = ctx.prog.func(WR)
-    wexts = set()
-    for n in ast.walk(fw):
-        if isinstance(n, ast.Call) and isinstance(n.func, ast.Attribute) and n.func.attr == "endswith" and n.args \
-                and isinstance(n.args[0], ast.Constant):
-            wexts.add(n.args[0].value.lstrip("."))
-    ctx.count(len(wexts), {"extensions accepted by write": sorted(wexts)})
-    if not {"mrc", "rec", "em"} <= wexts:
-        ctx.finding(WR, "extension dispatch", f"write must accept .mrc, .rec and .em (accepts {sorted(wexts)})", fw, mw)
     mr, fr_ = ctx.prog.func(RD)
-    for ext in sorted(wexts):
-        it = Interp(ctx.prog)
-        try:
-            r = it.run(RD, [K(f"x/file_q.{ext}")], {})
-            t = to_term(r.ret)
-            libs = sorted({n.args[0].split(".")[0] for n in tm.walk(t) if n.op == "call" and n.args[0].split(".")[0] in ("mrcfile", "emfile")})
-        except Unsupported:
-            libs = []
-        ctx.count(1)
-        if not r.returns or libs != [FAMILY.get(ext, "?")]:
-            ctx.finding(RD, f"reading of .{ext}", f"a .{ext} file written by cryomap.write cannot be read back by cryomap.read with the "
-                        f"same library family (read uses {libs})", fr_, mr)
+    wexts = []
+    lib_of = lambda e: "mrcfile" if e.name.startswith("mrcfile") else "emfile"
+    # the last extension alone selects the container: stems that merely contain another extension must not change the choice
+    stems = ("x/file_q", "sta_ref.mrc", "tomo_012.rec_bin4", "avg.em", "vol.em.b2", "run.rec.7x")
+    for ext in ("mrc", "rec", "em", "txt"):
+        for stem in stems:
+            name = f"{stem}.{ext}"
+            it = Interp(ctx.prog, assume=assume_map({"data_type is not None": False}))
+            try:
+                r = it.run(WR, [Unk(sym("volume")), K(name)], {"transpose": K(False), "overwrite": P("overwrite")})
+            except AbstractRaise:
+                r = None
+            evs = [e for e in it.events if e.kind == "call" and e.name in ("mrcfile.write", "emfile.write", "mrcfile.new", "mrcfile.open")]
+            ctx.count(1)
+            if evs and stem == stems[0]:
+                wexts.append(ext)
+            libs = sorted({lib_of(e) for e in evs})
+            if ext != "txt" and stem != stems[0] and libs != [FAMILY[ext]]:
+                ctx.finding(WR, "extension dispatch", f"the container must be selected by the final extension alone: {name!r} must be "
+                            f"written with {FAMILY[ext]} (the code uses {libs or 'no writer'})", fw, mw)
+            if ext == "txt" and stem != stems[0] and evs:
+                ctx.finding(WR, "extension dispatch", f"write must refuse {name!r} (it ends neither in .mrc, .rec nor .em)", fw, mw)
+    ctx.count(len(wexts), {"extensions accepted by write": sorted(wexts), "stems probed": list(stems)})
+    if not {"mrc", "rec", "em"} <= set(wexts):
+        ctx.finding(WR, "extension dispatch", f"write must accept .mrc, .rec and .em (accepts {sorted(wexts)})", fw, mw)
+    if "txt" in wexts:
+        ctx.finding(WR, "extension dispatch", "write must refuse file names that end neither in .mrc, .rec nor .em", fw, mw)
+    for ext in sorted(e_ for e_ in wexts if e_ != "txt"):
+        for stem in stems:
+            name = f"{stem}.{ext}"
+            it = Interp(ctx.prog)
+            libs, returns = [], False
+            try:
+                r = it.run(RD, [K(name)], {})
+                returns = bool(r.returns)
+                t = to_term(r.ret)
+                libs = sorted({n.args[0].split(".")[0] for n in tm.walk(t) if n.op == "call" and n.args[0].split(".")[0] in ("mrcfile", "emfile")})
+            except (Unsupported, AbstractRaise):
+                libs = []
+            ctx.count(1)
+            if not returns or libs != [FAMILY.get(ext, "?")]:
+                ctx.finding(RD, f"reading of .{ext}", f"{name!r} written by cryomap.write cannot be read back by cryomap.read with the "
+                            f"same library family (read uses {libs})", fr_, mr)
 
 
 def bind(prog, qual, ev):
